@@ -578,7 +578,7 @@ def _tg_cli_case(draw, tier):
             if u["tokens"][-1][2] * fs >= 2 ** 24 - 1000:
                 u["tokens"] = [[w, a - 15000000, b - 15000000] for w, a, b in u["tokens"]]  # 1.6e5 s -> 1e4 s
     return {"fix": draw(_FIX), "vocab": vocab, "unk": unk, "corpus": corpus, "fs": fs, "p": p,
-            "tg_suffix": draw(st.sampled_from([".TextGrid", ".TextGrid", ".tg"])),
+            "tg_suffix": draw(st.sampled_from([".TextGrid", ".TextGrid", ".tg", ".phn.TextGrid", "_tg.txt"])),
             "format": draw(st.sampled_from(["short", "long", "long2"])),
             "tier_name": draw(st.sampled_from(["transcript", "words", "t 1"])),
             "select": draw(st.sampled_from(["default", "name", "idx"])),
@@ -653,7 +653,7 @@ def _parse_short_textgrid(text, p):
               "interval tiers, times printed with the requested precision; point tiers may hold several points at one time (labels in any order: file order is kept); simulated pool changes no byte",
           required_classes=["prefix_p_", "prefix_x.", "kind_points", "kind_segments", "fs_0.0625", "precision_not3", "format_long2",
                             "fill_gap", "feat_dir", "reordered_completion", "time_ge_10s", "time_ge_1000s", "view_storage_offset", "view_noncontiguous", "stale_out_file", "big_ids",
-                            "coincident_points_labels_descending"])
+                            "coincident_points_labels_descending", "textgrid_suffix_not_one_extension"])
 def _tg_dir_tg(case):
     torch = _torch()
     fix, vocab, workers, fs, p = case["fix"], case["vocab"], case["workers"], case["fs"], case["p"]
@@ -764,6 +764,8 @@ def _tg_dir_tg(case):
         cl.append("time_ge_1000s")
     if any(u["kind"] == "points" and any(a[1] == b[1] and a[0] > b[0] for a, b in zip(u["tokens"], u["tokens"][1:])) for u in corpus):
         cl.append("coincident_points_labels_descending")
+    if case["tg_suffix"].count(".") != 1 or not case["tg_suffix"].startswith("."):
+        cl.append("textgrid_suffix_not_one_extension")
     cl += _layout_classes(case.get("mid_layout"))
     if case.get("stale_out"):
         cl.append("stale_out_file")
@@ -826,12 +828,18 @@ def _er_case(draw, tier):
         cvals = [i, dl, i + dl + draw(st.integers(1, 6)) / 4]
     else:
         cvals = None
-    return {"fix": draw(_FIX), "use_vocab": use_vocab, "vocab": vocab, "ignore": ignore, "replace": replace, "pairs": pairs,
+    case = {"fix": draw(_FIX), "use_vocab": use_vocab, "vocab": vocab, "ignore": ignore, "replace": replace, "pairs": pairs,
             "costs": costs, "cost_values": cvals, "batch_sizes": [draw(st.integers(1, 7)), draw(st.sampled_from([1, 2, 3, 100]))],
             "per_utt": draw(st.booleans()), "distances": draw(st.sampled_from([False, False, True])),
             "dirs": draw(st.sampled_from(["parent", "two", "two", "same"] if costs != "scaled" else ["parent", "two"])),
             "store": draw(st.sampled_from(["R3", "R3_timed", "R3_junk_times", "R", "R1"])),
             "decoy": draw(st.booleans()), "layout": [draw(_LAYOUT), draw(_LAYOUT)]}
+    if n >= 2 and case["dirs"] != "same" and draw(st.integers(0, 3)) == 0:
+        # --warn-missing: some utterances exist on one side only (never all of them); they are skipped, the others scored
+        k = draw(st.integers(1, n - 1))
+        idxs = draw(st.permutations(list(range(n))))[:k]
+        case["missing"] = [[i, draw(st.sampled_from(["ref", "hyp"]))] for i in sorted(idxs)]
+    return case
 
 
 def _store_tokens(torch, path, ids, how, layout="own"):
@@ -856,10 +864,11 @@ def _store_tokens(torch, path, ids, how, layout="own"):
           doc="1..6 reference/hypothesis pairs stored as (R,3)/(R,)/(R,1), with or without --id2token, --replace then --ignore (no reference "
               "becomes empty), default / NIST / dyadic / tie-provoking costs, --per-utt, --distances, two batch sizes: printed figure == "
               "edits / reference length with edits inside the [min, max] edit counts of the minimum-cost alignments (== Levenshtein for "
-              "equal costs); identical print-out for both batch sizes whenever the count is unique",
+              "equal costs); identical print-out for both batch sizes whenever the count is unique; 1 case in 4 with utterances present on one "
+              "side only: ValueError without --warn-missing, with it the figures of the common utterances",
           required_classes=["ignore_removes_token", "replace_changes_token", "costs_tie", "costs_sub_big", "count_ambiguous", "per_utt", "total", "prefix_p_",
                             "use_vocab", "ids_only", "batches_differ", "costs_scaled", "store_R3_junk_times", "same_dir_both_roles",
-                            "view_storage_offset", "view_noncontiguous", "big_ids"])
+                            "view_storage_offset", "view_noncontiguous", "big_ids", "warn_missing_one_sided_utterances"])
 def _error_rates(case):
     torch = _torch()
     fix, vocab = case["fix"], case["vocab"]
@@ -878,7 +887,10 @@ def _error_rates(case):
     removed = changed = False
     same = case["dirs"] == "same"  # one directory in both roles: every hypothesis is its reference
     lay = case.get("layout") or ["own", "own"]
+    missing = {case["pairs"][i]["utt"]: side for i, side in case.get("missing", [])}
     for pr in case["pairs"]:
+        if pr["utt"] in missing:
+            continue
         r, h = norm(pr["ref"]), norm(pr["ref"] if same else pr["hyp"])
         removed |= len(r) < len(pr["ref"]) or len(h) < len(pr["hyp"])
         changed |= any(x in rep and rep[x] != x and rep[x] not in ign for x in pr["ref"] + pr["hyp"])
@@ -911,6 +923,8 @@ def _error_rates(case):
             fn = fix["prefix"] + pr["utt"] + fix["suffix"]
             _store_tokens(torch, os.path.join(ref_dir, fn), pr["ref"], case["store"], lay[0])
             _store_tokens(torch, os.path.join(hyp_dir, fn), pr["hyp"], "R3" if case["store"] == "R3_timed" else case["store"], lay[1])
+        for u, side in missing.items():
+            os.remove(os.path.join(ref_dir if side == "ref" else hyp_dir, fix["prefix"] + u + fix["suffix"]))
         if case["decoy"]:
             _decoy(ref_dir, fix)
             _decoy(hyp_dir, fix)
@@ -930,6 +944,10 @@ def _error_rates(case):
             opts.append("--per-utt")
         if case["distances"]:
             opts.append("--distances")
+        if missing:
+            with expect_raises(ValueError, what="error rates over directories that list different utterances, without --warn-missing"):
+                _run("compute_torch_token_data_dir_error_rates", pos + ([os.path.join(d, "none.txt")] if case["dirs"] != "parent" else []) + opts)
+            opts.append("--warn-missing")
         for k, bs in enumerate(case["batch_sizes"]):
             out = os.path.join(d, "out%d.txt" % k)
             args = pos + ([out] if case["dirs"] != "parent" else []) + opts + ["--batch-size", str(bs)]
@@ -979,6 +997,8 @@ def _error_rates(case):
         cl.append("count_ambiguous")
     if case["distances"]:
         cl.append("distances")
+    if missing:
+        cl.append("warn_missing_one_sided_utterances")
     n = len(case["pairs"])
     if -(-n // case["batch_sizes"][0]) != -(-n // case["batch_sizes"][1]):
         cl.append("batches_differ")
